@@ -26,7 +26,7 @@ git -C /repo checkout -- .
 NV=$(grep -c "^VIOLATION property=" "$OUT" || true)
 NSOLVER=$(grep -E "^VIOLATION +[0-9.]+s " "$OUT" | grep -vc "sanity:" || true)
 NSANITY=$(grep -E "^VIOLATION +[0-9.]+s " "$OUT" | grep -c "sanity:" || true)
-SOLVERFIRST=$(grep -E "^VIOLATION +[0-9.]+s " "$OUT" | grep -v "sanity:" | head -1 | awk '{print $NF}' | cut -c1-120)
+SOLVERFIRST=$(grep -E "^VIOLATION +[0-9.]+s " "$OUT" | grep -v "sanity:" | head -1 | sed -E 's/^VIOLATION +[0-9.]+s +paths=[^ ]+ +q=[^ ]+ +//' | sed -E 's/ +$//' | cut -c1-120)
 FIRST=$(grep -m1 -A1 "^VIOLATION property=" "$OUT" | tail -1 | cut -c1-200)
 echo "seed $NAME: check exit=$RC violations=$NV (solver-found obligations: $NSOLVER, concrete sanity inputs: $NSANITY) first: $FIRST"
 python3 - "$PROP" "$NAME" "$RC" "$NV" "$FIRST" "$NEEDS" "$NSOLVER" "$NSANITY" "$SOLVERFIRST" <<'PY'
